@@ -799,7 +799,12 @@ class RemoteStreamFlowPath(
         if (inner_path := await self._get_inner_path()) != self:
             await inner_path.symlink_to(target, target_is_directory=target_is_directory)
         else:
-            command = ["ln", "-snf", str(target), self.__str__()]
+            command = [
+                "ln",
+                "-snf",
+                shlex.quote(str(target)),
+                shlex.quote(self.__str__()),
+            ]
             result, status = await self.connector.run(
                 location=self.location, command=command, capture_output=True
             )
